@@ -47,6 +47,8 @@ def cells(tier, seed):
                 if direction == 'forward':
                     c['skip'] = [rnd.random() < 0.25 for _ in range(J)]
                     c['include'] = [rnd.random() < 0.4 for _ in range(J)] if rnd.random() < 0.5 else [False] * J
+                if rnd.random() < 0.25:
+                    c['mode'] = 'zero'           # the padding-mode option (level-1 filters pad with zeros)
                 out.append(c)
     rnd.shuffle(out)
     if tier == 'thorough':
@@ -114,7 +116,7 @@ def forward_dir(cell, seed):
     o, r = cell['o'], cell['r']
     with util.default_dtype(torch.float64):
         mod = pw.DTCWTForward(biort=cell['biort'], qshift=cell['qshift'], J=cell['J'], o_dim=o, ri_dim=r,
-                              skip_hps=cell['skip'], include_scale=cell['include'])
+                              skip_hps=cell['skip'], include_scale=cell['include'], mode=cell.get('mode', 'symmetric'))
     sp = cell['shape']
     n_in = sp[0] * sp[1]
     ok, y = util.call_lib(mod, util.impulses(sp))
@@ -215,8 +217,8 @@ def inverse_dir(cell, seed):
     J = cell['J']
     sp = cell['shape']
     with util.default_dtype(torch.float64):
-        fwd = pw.DTCWTForward(biort=cell['biort'], qshift=cell['qshift'], J=J, o_dim=o, ri_dim=r)
-        inv = pw.DTCWTInverse(biort=cell['biort'], qshift=cell['qshift'], o_dim=o, ri_dim=r)
+        fwd = pw.DTCWTForward(biort=cell['biort'], qshift=cell['qshift'], J=J, o_dim=o, ri_dim=r, mode=cell.get('mode', 'symmetric'))
+        inv = pw.DTCWTInverse(biort=cell['biort'], qshift=cell['qshift'], o_dim=o, ri_dim=r, mode=cell.get('mode', 'symmetric'))
     ok, y = util.call_lib(fwd, torch.zeros([1, 1] + sp, dtype=torch.float64))
     if not ok:
         return [res(INCONCLUSIVE, {'cell': cell}, 'M-JAC', 'forward (for shapes) raised %r' % (y,))]
